@@ -47,6 +47,15 @@ def split(res, keep_ops):
 def run(tier: str, seed: int, pid="C02") -> int:
     run_ = Run(pid, tier, seed)
     stats = ("s0", "s1", "s2m", "s3d") if tier == "thorough" else ("s0", "s2m")
+    if pid == "C01":  # the two definitions of the ground truth must agree before it judges anything
+        cfg = tlc.read_spec("MC_WordUniverse.cfg")
+        if tier == "thorough":
+            cfg = cfg.replace("K = 2 N = 6 MaxPatLen = 3 MaxPre = 2", "K = 2 N = 8 MaxPatLen = 3 MaxPre = 3")
+        tlc.write_module(run_.wd, "MC_WordUniverse", tlc.read_spec("MC_WordUniverse.tla"), cfg)
+        r = tlc.require_ok(tlc.run_tlc(run_.wd, "MC_WordUniverse", workers=16, timeout=1800), "MC_WordUniverse")
+        run_.add_tlc(r, "MC_WordUniverse: brute-force truth = dynamic-programming truth")
+        if r.status == "violated":
+            raise tlc.MachineryError("the two ground-truth definitions disagree: " + r.out[-2000:])
     res = campaign(tier, seed, stats)
     ops = ("spec", "outcome") if pid == "C02" else ("terms", "outcome")
     traces = split(res, ops)
